@@ -12,6 +12,7 @@ def run(ctx: Ctx) -> int:
     from tealer.analyses.dataflow.transaction_context.generic import DataflowTransactionContext as D
     from tealer.analyses.dataflow.transaction_context.txn_types import TxnType
     from tealer.analyses.utils import stack_ast_builder as SB
+    from tealer.printers import transaction_context as PTC
 
     return kprop.run_k(
         ctx, "C17",
@@ -20,9 +21,10 @@ def run(ctx: Ctx) -> int:
         "(GroupIndices, FeeField incl. all gtxn keys) are run on one-block functions parsed natively whose immediate is then replaced by a symbolic value: GroupSize / GroupIndex / "
         "Fee constants over all uint64 (post-condition: the block's set / bound is exactly the implied one - whole-pipeline exactness for every constant), gtxn index 0..255, "
         "gtxns offsets and absolute indices over all uint64, intc index beyond the constant block, dig/cover/popn depths 0..255, scratch slots; TypeEnum / OnCompletion / "
-        "ApplicationID constants over all uint64 at kernel level (the whole TxnType analysis does not finish under the tracer); index classification for 0..255. Outside: crashes "
-        "that depend on the layout and everything about the CLI, printers and files (no symbolic dimension) - their graph-level causes are checked under C04/C05/C12",
-        [lambda: D.run_analysis, lambda: TxnType._get_asserted_transaction_types, lambda: SB.construct_stack_ast.__wrapped__],
+        "ApplicationID constants over all uint64 at kernel level (the whole TxnType analysis does not finish under the tracer); index classification for 0..255; the real "
+        "transaction-context printer on a 3-block program for every constant (only full_cfg_to_dot / all_subroutines_to_dot / makedirs are stubbed: they ask for the annotation of every block). "
+        "Outside: crashes that depend on the layout and everything else about the CLI, the other printers and files (no symbolic dimension) - their graph-level causes are checked under C04/C05/C12",
+        [lambda: D.run_analysis, lambda: TxnType._get_asserted_transaction_types, lambda: SB.construct_stack_ast.__wrapped__, lambda: PTC.PrinterTransactionContext.print],
         {"immediates": "uint64 / 0..255"},
         ["programs are one-block functions; larger shapes are covered by the S/G checks, whose workers report any tealer exception as a harness error"],
         timeout_quick=200, timeout_thorough=600,
